@@ -239,7 +239,7 @@ fn c18_twin_reach() {
 }
 """, functions=["Place::set_dorsal", "Segment::set_feat"], symbolic="as the setter harnesses", shape="assert(false) twin", expect="fail"))
     return {
-        "harnesses": hs, "cap_s": 900,
+        "harnesses": hs, "cap_s": 900, "jobs": 16,
         "bounds": ["loop-free code: no unwinding bound; the only bounds are the types (u8 bytes, Option<u16> place)",
                    "values passed to set_* are within the documented range (<=3, <=63; debug_assert in the code)"],
         "outside": ["out-of-range payloads to Place::set_* / Segment::set_node (documented precondition)", "NodeKind::Place with get_node/set_node/get_feat (documented panic)"],
@@ -267,10 +267,10 @@ def dev(tier, seed, dst, facts):
     """development scratchpad: harnesses from .cache/dev.rs, blocks separated by `//! HARNESS <name> <host> [unwindset]`"""
     src = open(os.path.join(os.path.dirname(os.path.dirname(os.path.abspath(__file__))), ".cache", "dev.rs")).read()
     hs = []
-    for m in re.finditer(r"^//! HARNESS (\S+) (\S+)( unwindset)?\n(.*?)(?=^//! HARNESS|\Z)", src, re.S | re.M):
-        h = H(m.group(1), "dev", m.group(2), m.group(4), shared=[SUBRULE_SHARED] if m.group(2) == "subrule" else [], stubs=["x"])
+    for m in re.finditer(r"^//! HARNESS (\S+) (\S+)( unwindset(?:=(\S+):(\d+))?)?\n(.*?)(?=^//! HARNESS|\Z)", src, re.S | re.M):
+        h = H(m.group(1), "dev", m.group(2), m.group(6), shared=[SUBRULE_SHARED] if m.group(2) == "subrule" else [], stubs=["x"])
         if m.group(3):
-            h["unwindset"] = {"pattern": r"hashbrown|core..hash..sip|sip..Hasher|4hash3sip|BuildHasher|hash_one", "bound": 3}
+            h["unwindset"] = {"pattern": m.group(4) or r"hashbrown|core..hash..sip|sip..Hasher|4hash3sip|BuildHasher|hash_one", "bound": int(m.group(5) or 3)}
         hs.append(h)
     return {"harnesses": hs, "cap_s": 900}
 
